@@ -94,11 +94,11 @@ pub fn gen_text(rng: &mut Rng, max_len: usize, ascii: bool) -> String {
     return s;
   }
   // swarm mode "many lines" (2 in 1000 leaf-sized texts): a line count next to
-  // a power of two (31 .. 2052 lines: 8-bit line numbers, small line tables;
+  // a power of two (31 .. 516 lines: 8-bit line numbers, small line tables;
   // more lines cost the position-wise oracles quadratic time and the
   // scheduler its step budget, one decision per chunk callback)
   if max_len >= 24 && !cfg!(miri) && rng.chance(2) {
-    let n = magic_count(rng, 11);
+    let n = magic_count(rng, 9);
     let unit = *rng.pick(&["x\n", ";\n", "\n", "ab;\n", "a\r\n"]);
     for i in 0..n {
       if i % 97 == 13 {
